@@ -6,6 +6,7 @@ import (
 	"encoding/json"
 	"io"
 	"math"
+	"os"
 	"reflect"
 	"sort"
 	"strconv"
@@ -26,6 +27,13 @@ type verifCase struct {
 	Float   string         `json:"float"`   // a number token: JSON and YAML routes into float32/float64, bit patterns
 	Marshal *verifMarshal  `json:"marshal"` // direct Marshal of a generated struct value
 	Readers bool           `json:"readers"` // extra reader situations: empty, blank, drained, one byte at a time
+	Env     *verifEnv      `json:"env"`     // set this environment variable, then unmarshal {} (env= members)
+}
+
+// verifEnv names a variable that no earlier case has used (proc.Env remembers the first value it sees for a name).
+type verifEnv struct {
+	Name  string `json:"name"`
+	Value string `json:"value"`
 }
 
 type verifMarshal struct {
@@ -130,6 +138,12 @@ func TestVerifDriver(t *testing.T) {
 		var typ reflect.Type
 		if panicked, pv := verifdrv.Catch(func() { typ = c.Shape.Build() }); panicked {
 			return map[string]any{"error": "shape: " + pv}
+		}
+		if c.Env != nil {
+			// before anything reads it: proc.Env remembers the first value it sees for a name
+			os.Setenv(c.Env.Name, c.Env.Value)
+			defer os.Unsetenv(c.Env.Name)
+			return map[string]any{"e": c05shape.RunInto(typ, func(v any) error { return UnmarshalJsonBytes([]byte(c.JSON), v) })}
 		}
 		out := map[string]any{"j": c05shape.RunInto(typ, func(v any) error { return UnmarshalJsonBytes([]byte(c.JSON), v) })}
 		if c.YAML != "" {
